@@ -90,34 +90,60 @@ theorem run_and (n : Nat) (x y : Stmt) (s : St) (hs : stop s = false) :
       match run n (.stmt x) { s with noErrExit := true } with
       | none => none
       | some s1 =>
-        if s1.exit.ok then run n (.stmt y) { s1 with noErrExit := s.noErrExit }
+        if (s1.exit.ok == true) then run n (.stmt y) { s1 with noErrExit := s.noErrExit }
         else some { s1 with noErrExit := s.noErrExit } := by
-  rw [run]; simp only [hs, Bool.false_eq_true, ↓reduceIte]; rfl
+  rw [run]; simp only [hs, Bool.false_eq_true, ↓reduceIte]
+  cases run n (.stmt x) { s with noErrExit := true } with
+  | none => rfl
+  | some s1 =>
+    show (if s1.exit.ok = true then _ else _) = (if (s1.exit.ok == true) = true then _ else _)
+    cases s1.exit.ok <;> rfl
 
 theorem run_or (n : Nat) (x y : Stmt) (s : St) (hs : stop s = false) :
     run (n+1) (.cmd (.or x y)) s =
       match run n (.stmt x) { s with noErrExit := true } with
       | none => none
       | some s1 =>
-        if !s1.exit.ok then run n (.stmt y) { s1 with noErrExit := s.noErrExit }
+        if (s1.exit.ok == false) then run n (.stmt y) { s1 with noErrExit := s.noErrExit }
         else some { s1 with noErrExit := s.noErrExit } := by
-  rw [run]; simp only [hs, Bool.false_eq_true, ↓reduceIte]; rfl
+  rw [run]; simp only [hs, Bool.false_eq_true, ↓reduceIte]
+  cases run n (.stmt x) { s with noErrExit := true } with
+  | none => rfl
+  | some s1 =>
+    show (if (!s1.exit.ok) = true then _ else _) = (if (s1.exit.ok == false) = true then _ else _)
+    cases s1.exit.ok <;> rfl
 
 theorem sem_and (n : Nat) (k : Ctx) (x y : Stmt) (e : Env) :
     sem (n+1) k (.cmd (.and x y)) e =
       match sem n { k with ign := true } (.stmt x) e with
       | none => none
-      | some (.norm, e1) => if e1.status = 0 then sem n k (.stmt y) e1 else some (.norm, e1)
+      | some (.norm, e1) =>
+        if ((e1.status == 0) == true) then sem n k (.stmt y) e1 else some (.norm, e1)
       | some r => some r := by
-  rw [sem]; rfl
+  rw [sem]
+  cases sem n { k with ign := true } (.stmt x) e with
+  | none => rfl
+  | some r =>
+    obtain ⟨fl, e1⟩ := r
+    cases fl <;> try rfl
+    show (if e1.status = 0 then _ else _) = (if ((e1.status == 0) == true) = true then _ else _)
+    by_cases h : e1.status = 0 <;> simp [h]
 
 theorem sem_or (n : Nat) (k : Ctx) (x y : Stmt) (e : Env) :
     sem (n+1) k (.cmd (.or x y)) e =
       match sem n { k with ign := true } (.stmt x) e with
       | none => none
-      | some (.norm, e1) => if e1.status ≠ 0 then sem n k (.stmt y) e1 else some (.norm, e1)
+      | some (.norm, e1) =>
+        if ((e1.status == 0) == false) then sem n k (.stmt y) e1 else some (.norm, e1)
       | some r => some r := by
-  rw [sem]; rfl
+  rw [sem]
+  cases sem n { k with ign := true } (.stmt x) e with
+  | none => rfl
+  | some r =>
+    obtain ⟨fl, e1⟩ := r
+    cases fl <;> try rfl
+    show (if e1.status ≠ 0 then _ else _) = (if ((e1.status == 0) == false) = true then _ else _)
+    by_cases h : e1.status = 0 <;> simp [h]
 
 /-- `x && y` and `x || y` (`isAnd` selects). -/
 theorem sim_andor {n : Nat} (hS : SimS n) {K : SCtx} {k : Ctx} {sub : Bool} {s : St}
